@@ -12,6 +12,8 @@ Description grammar (lists only, so json round-trips exactly):
   ["deque", [c..], maxlen_mode, hist]      maxlen_mode: "none" | "len" | "len+2" | "zero"(only when empty)
   ["nt", name, [c..]] ["ss", name, [c..]]
   ["cg", [c..], tag] ["cn", x, y, meta] ["cs", a, b] ["cm", [[s, c]..]] ["cu", [c..], meta]
+  ["cq", [c..]] ["cp", [[s, c]..]]   Sequence / Mapping subclasses registered with AutoEntry
+  ["bad", kind]                  malformed custom node (error parity)
   ["ci", [c..]] ["dc", x, y, tag] ["partial", fname, [c..], [[kw, c]..]]
 Keys:  ["i",n] ["s",str] ["f",x] ["b",bool] ["by",str] ["n"] ["t",[key..]] ["fs",[int..]] ["KO",n] ["K",n]
 History ops:  ["reinsert", i]  (pop the i-th key (mod len) and insert it again at the end)
@@ -142,6 +144,10 @@ def build(desc):
         return U.DC(build(desc[1]), build(desc[2]), _meta(desc[3]))
     if t == 'bad':
         return U.Bad(desc[1])
+    if t == 'cq':
+        return U.CSeq(*[build(c) for c in desc[1]])
+    if t == 'cp':
+        return U.CMap([(k, build(c)) for k, c in desc[1]])
     if t == 'partial':
         import optree.functools as oft
         return oft.partial(U.FUNCS[desc[1]], *[build(c) for c in desc[2]],
@@ -232,7 +238,7 @@ META = st.sampled_from([None, 'm', 3, ['tup', 1, 2]])
 
 
 ALL_KINDS = ('tuple', 'list', 'dict', 'od', 'dd', 'deque', 'nt', 'ss', 'cg', 'cn', 'cs', 'cm', 'cu',
-             'ci', 'dc', 'partial')
+             'ci', 'dc', 'partial', 'cq', 'cp')
 _WEIGHT = {'tuple': 3, 'list': 3, 'dict': 4, 'od': 3, 'dd': 3, 'deque': 2, 'nt': 2}
 _LEAF = leaf_descs()
 _META = META
@@ -320,6 +326,12 @@ def _node(draw, budget, depth, keys, kinds, max_depth, leaf=None):
         return ['cu', kids(3), draw(st.lists(st.integers(0, 2), max_size=2))]
     if kind == 'ci':
         return ['ci', kids(3)]
+    if kind == 'cq':
+        return ['cq', kids(3)]
+    if kind == 'cp':
+        ch = kids(3)
+        names = draw(st.permutations(list('xyzw')))
+        return ['cp', [[names[i], c] for i, c in enumerate(ch)]]
     if kind == 'partial':
         ch = kids(4)
         na = draw(st.integers(0, len(ch)))
